@@ -4,12 +4,41 @@ from vlib.core import Ctx, hexs, unhex, ddmin, load_known_findings
 
 ID = "C19"
 MODULES = ["IoraModel.Props.C19"]
-LEANCHECK = ["IoraModel.Props.C19", "IoraModel.Lemmas.Dns", "IoraModel.Lemmas.DnsCache", "IoraModel.Model.Dns", "IoraModel.Model.DnsCache",
-             "IoraModel.Spec.DnsWire"]
+LEANCHECK = ["IoraModel.Props.C19", "IoraModel.Lemmas.Dns", "IoraModel.Lemmas.DnsSafe", "IoraModel.Lemmas.DnsName", "IoraModel.Lemmas.DnsRoundtrip",
+             "IoraModel.Lemmas.DnsRecords", "IoraModel.Lemmas.DnsCache", "IoraModel.Model.Dns", "IoraModel.Model.DnsCache", "IoraModel.Spec.DnsWire"]
 OBLIGATIONS = [
-    {"id": "C19_N4", "theorem": "Iora.C19.N4_name_fuel", "kind": "proved", "statement": "decodeName never exhausts its fuel: at most size+127 loop iterations for arbitrary bytes"},
+    {"id": "C19_N1a", "theorem": "Iora.C19.N1_sound", "kind": "proved",
+     "statement": "Denotes m off ls next (RFC 1035 relation, any layout of compression pointers) and wire ls <= 253 -> decodeName m off = ok (dotted ls, next)"},
+    {"id": "C19_N1b", "theorem": "Iora.C19.N1_complete", "kind": "proved",
+     "statement": "decodeName m off = ok (n, next) -> exists ls, Denotes m off ls next and n = dotted ls (exact or rejected; needs the F33 repair)"},
+    {"id": "C19_N1_dotted", "theorem": "Iora.C19.N1_dotted", "kind": "proved", "statement": "presentation form = labels joined by dots"},
+    {"id": "C19_N1c", "theorem": "Iora.C19.N1_roundtrip", "kind": "proved",
+     "statement": "encodeName n = ok w -> decodeName (pre ++ w ++ post) |pre| = ok (dotted (labelsOf n), |pre| + |w|)"},
+    {"id": "C19_N1q", "theorem": "Iora.C19.N1_query_roundtrip", "kind": "proved",
+     "statement": "parse (buildQuery qs rd id) returns id, RD and the same questions (names normalised), empty sections"},
+    {"id": "C19_N3", "theorem": "Iora.C19.N3_parse_no_oob", "kind": "proved", "statement": "for arbitrary bytes parse never reads out of range (every read of the model goes through rd)"},
+    {"id": "C19_N3_name", "theorem": "Iora.C19.N3_name_no_oob", "kind": "proved", "statement": "decodeName never reads out of range, any offset"},
+    {"id": "C19_N3_rdata", "theorem": "Iora.C19.N3_rdataName_no_oob", "kind": "proved", "statement": "decodeNameFromRdata never reads out of range, arbitrary arguments"},
+    {"id": "C19_N4a", "theorem": "Iora.C19.N4_name_fuel", "kind": "proved", "statement": "decodeName: at most size+127 loop iterations for arbitrary bytes"},
+    {"id": "C19_N4b", "theorem": "Iora.C19.N4_parse_fuel", "kind": "proved", "statement": "parse never exhausts fuel"},
+    {"id": "C19_N4c_self", "theorem": "Iora.C19.N4_self_pointer_rejected", "kind": "proved", "statement": "a self-pointing name is an error at every offset < 16384"},
+    {"id": "C19_N4c_range", "theorem": "Iora.C19.N4_out_of_range_rejected", "kind": "proved", "statement": "a pointer to an offset >= size is an error"},
+    {"id": "C19_N2_A_refuted", "theorem": "Iora.C19.N2_A_refuted", "kind": "refuted", "finding": "F13A",
+     "statement": "NOT (validateRdataSecurity never rejects a 4-byte A record): 192.32.0.0"},
+    {"id": "C19_N2_A_witness", "theorem": "Iora.C19.N2_A_witness_rejected", "kind": "refuted", "finding": "F13A",
+     "statement": "the complete well-formed response carrying A 192.32.0.0 is rejected as malicious"},
+    {"id": "C19_N2_A_partial", "theorem": "Iora.C19.N2_A_partial", "kind": "partial", "finding": "F13A",
+     "statement": "outside aRuleFires (192.x.0.0, x<64) every 4-byte A record passes and its typed form is its 4 octets"},
+    {"id": "C19_N2_other", "theorem": "Iora.C19.N2_other_types_pass", "kind": "proved", "statement": "validateRdataSecurity rejects no record of any type other than A (F12/F13 repair)"},
+    {"id": "C19_N2_gen", "theorem": "Iora.C19.N2_gen_shape", "kind": "proved", "statement": "Gen: validateRdataSecurity inspects type A only and has no size()-1 arithmetic"},
+    {"id": "C19_N2_aaaa", "theorem": "Iora.C19.N2_aaaa_exact", "kind": "proved", "statement": "any 16 octets decode to exactly that AAAA address"},
+    {"id": "C19_N2_txt", "theorem": "Iora.C19.N2_txt_exact", "kind": "proved", "statement": "any sequence of character strings decodes to exactly those strings"},
+    {"id": "C19_N5", "theorem": "Iora.C19.N5_served_only_fresh", "kind": "proved",
+     "statement": "for every history and clock: a served answer was stored under the same normalised key, TTL > 0, now < t + ttl, key untouched since"},
+    {"id": "C19_N5b", "theorem": "Iora.C19.N5_put_ttl_is_minimum", "kind": "proved", "statement": "the TTL of put is <= the TTL of every record of the result"},
+    {"id": "C19_N5c", "theorem": "Iora.C19.N5_key_iff", "kind": "proved", "statement": "same key iff same type, class and lower-cased name"},
+    {"id": "C19_N5d", "theorem": "Iora.C19.N5_zero_ttl_guard", "kind": "proved", "statement": "Gen: TTL 0 is never stored (F14 repair); expiry comparison is strict"},
 ]
-
 ANCHOR_FILES = ["include/iora/network/dns/dns_message.hpp", "include/iora/network/dns/dns_cache.hpp",
                 "include/iora/util/expiring_cache.hpp", "include/iora/network/dns/dns_types.hpp"]
 
